@@ -201,6 +201,12 @@ EXPRS2 = {
     "x.to_frame": lambda d: d.x.to_frame(),
     "k+k": lambda d: d.k + d.k,
     "tail(1)": lambda d: d.tail(1),
+    "query(x>1)": lambda d: d.query("x > 1"),
+    "set_index(k)": lambda d: d.set_index("k"),
+    "set_index(k).x+1": lambda d: d.set_index("k").x + 1,
+    "index.to_frame": lambda d: d.index.to_frame(),
+    "x.index.to_frame": lambda d: d.x.index.to_frame(),
+    "query(x>1).x": lambda d: d.query("x > 1").x,
 }
 for name, f in EXPRS2.items():
     add("batch:" + name, "elementwise", f, mode="perbatch", cols=XY)
@@ -218,6 +224,17 @@ add("cumsum.mean", "Series.mean", lambda d: d.x.cumsum().mean())
 add("cummax.count", "Series.count", lambda d: d.x.cummax().count())
 add("rolling(2).sum.sum", "Series.sum", lambda d: d.x.rolling(2).sum().sum())
 add("cumsum.groupby(series).sum", "groupby(series).sum", lambda d: d.x.cumsum().groupby(d.k).sum())
+# aggregations of an aggregation's running result (class Frames: evaluated on every update)
+add("groupby.sum|sum", "Series.sum", lambda d: d.groupby("k").x.sum().sum())
+add("groupby.sum|mean", "Series.mean", lambda d: d.groupby("k").x.sum().mean())
+add("groupby.count|count", "Series.count", lambda d: d.groupby("k").x.count().count())
+add("groupby.sum|size", "Series.size", lambda d: d.groupby("k").x.sum().size)
+add("groupby.sum|var", "Series.var", lambda d: d.groupby("k").x.sum().var())
+add("groupby.sum|std", "Series.std", lambda d: d.groupby("k").x.sum().std())
+add("groupby.mean|tail(1)", "groupby(col).mean", lambda d: d.groupby("k").x.mean().tail(1))
+add("frame.sum|sum", "DataFrame.sum", lambda d: d[XY].sum().sum(), cols=XY)
+add("value_counts|sum", "Series.value_counts", lambda d: d.x.value_counts().sum())
+add("groupby.sum[frame]|sum", "groupby(col).sum", lambda d: d.groupby("k").sum().sum(), cols=XY)
 add("std(ddof=0)", "Series.std", lambda d: d.x.expanding().std(ddof=0), lambda d: d.x.std(ddof=0))
 add("groupby(col).std[ddof=0]", "groupby(col).std", lambda d: d.groupby("k").x.std(ddof=0))
 add("groupby(col).var[ddof=0]", "groupby(col).var", lambda d: d.groupby("k").x.var(ddof=0))
